@@ -3061,4 +3061,676 @@ theorem buildEnum_perm {s s' : State} (h : PermS s s') (path : Path) (ed : G.Enu
       simp only [canonM_scope hm, Mono.resolveTy_fun s.reg s'.reg h.regSim.contains, dsize_sim h.regSim,
         dalign_sim h.regSim]
 
+
+/-- the step of the extern-value pass of `SemanticState::build` -/
+def xvalPass (reg : Registry) (e : Path × Mod) : Res (Path × Mod) :=
+  match resolveXVals reg e.2 with
+  | .ok m => Res.ok (e.1, m)
+  | x => x.cast
+
+/-- `SemanticState::build` after the resolution loop -/
+def buildFinish (o : BuildOutcome) : BuildOutcome :=
+  match o with
+  | .ok s1 =>
+    match Res.mapM' (xvalPass s1.reg) s1.modules with
+    | .ok ms => .ok { s1 with modules := ms }
+    | .err m => .err m
+    | .panic m => .panic m
+    | .defer => .err "unreachable"
+  | other => other
+
+theorem build_eq (s : State) (prio : List Path) :
+    s.build prio = buildFinish (resolveLoop prio (2 * (s.reg.types.filter fun e => !e.2.isResolved).length + 2) s) := by
+  unfold State.build buildFinish
+  simp only []
+  cases resolveLoop prio (2 * (s.reg.types.filter fun e => !e.2.isResolved).length + 2) s with
+  | ok s1 => rfl
+  | _ => rfl
+
+theorem setState_perm {s1 s1' : State} (h : PermS s1 s1') (q : Path) (st : IState) :
+    PermS { s1 with reg := s1.reg.setState q st } { s1' with reg := s1'.reg.setState q st } := by
+  refine ⟨h.ps, ?_, ?_, h.mods⟩
+  · intro k
+    simp only [C12.get_setState, h.get]
+  · simp only [Registry.setState]
+    exact h.perm.map _
+
+theorem attemptDef_perm {s s' : State} (h : PermS s s') (q : Path) (d0 : G.Item) :
+    PermS (attemptDef s q d0).1 (attemptDef s' q d0).1 ∧ (attemptDef s' q d0).2 = (attemptDef s q d0).2 := by
+  unfold attemptDef
+  cases d0.inner with
+  | type td => exact buildType_perm h q d0.vis td
+  | enum ed => exact ⟨h, buildEnum_perm h q ed⟩
+
+theorem finishAttempt_perm (q : Path) (x x' : State × Res Resolved) (h1 : PermS x.1 x'.1) (h2 : x'.2 = x.2) :
+    PermS (finishAttempt q x).1 (finishAttempt q x').1 ∧ (finishAttempt q x').2 = (finishAttempt q x).2 := by
+  obtain ⟨s1, res⟩ := x
+  obtain ⟨s1', res'⟩ := x'
+  simp only [] at h1 h2
+  subst h2
+  cases res' with
+  | ok r => exact ⟨setState_perm h1 q (.res r), rfl⟩
+  | _ => exact ⟨h1, rfl⟩
+
+theorem attemptItem_perm {s s' : State} (h : PermS s s') (q : Path) :
+    PermS (attemptItem s q).1 (attemptItem s' q).1 ∧ (attemptItem s' q).2 = (attemptItem s q).2 := by
+  rw [attemptItem_eq, attemptItem_eq, h.get]
+  cases s.reg.get q with
+  | none => exact ⟨h, rfl⟩
+  | some item =>
+    simp only []
+    cases item.state with
+    | res r => exact ⟨h, rfl⟩
+    | unres d0 =>
+      simp only []
+      obtain ⟨h1, h2⟩ := attemptDef_perm h q d0
+      exact finishAttempt_perm q _ _ h1 h2
+
+theorem runRound_perm (l : List Path) {s s' : State} (h : PermS s s') :
+    PermS (runRound s l).1 (runRound s' l).1 ∧ (runRound s' l).2 = (runRound s l).2 := by
+  induction l generalizing s s' with
+  | nil => exact ⟨h, rfl⟩
+  | cons q qs ih =>
+    obtain ⟨h1, h2⟩ := attemptItem_perm h q
+    cases ha : attemptItem s q with
+    | mk s2 r2 =>
+      cases ha' : attemptItem s' q with
+      | mk s2' r2' =>
+        rw [ha, ha'] at h1 h2
+        simp only [] at h1 h2
+        subst h2
+        cases r2' with
+        | ok u =>
+          cases u
+          rw [runRound_cons_ok s s2 q qs ha, runRound_cons_ok s' s2' q qs ha']
+          exact ih h1
+        | defer =>
+          rw [runRound_cons_stop s s2 q qs _ ha (by simp), runRound_cons_stop s' s2' q qs _ ha' (by simp)]
+          exact ⟨h1, rfl⟩
+        | err m =>
+          rw [runRound_cons_stop s s2 q qs _ ha (by simp), runRound_cons_stop s' s2' q qs _ ha' (by simp)]
+          exact ⟨h1, rfl⟩
+        | panic m =>
+          rw [runRound_cons_stop s s2 q qs _ ha (by simp), runRound_cons_stop s' s2' q qs _ ha' (by simp)]
+          exact ⟨h1, rfl⟩
+
+/-- two outcomes: the same failure, or accepted with related states -/
+def RelO (R : State → State → Prop) : BuildOutcome → BuildOutcome → Prop
+  | .ok s, .ok s' => R s s'
+  | .nonterm l, .nonterm l' => l' = l
+  | .err m, .err m' => m' = m
+  | .panic m, .panic m' => m' = m
+  | .fuel, .fuel => True
+  | _, _ => False
+
+theorem resolveLoop_perm (prio : List Path) (fuel : Nat) {s s' : State} (h : PermS s s') :
+    RelO PermS (resolveLoop prio fuel s) (resolveLoop prio fuel s') := by
+  induction fuel generalizing s s' with
+  | zero => exact trivial
+  | succ n ih =>
+    unfold resolveLoop
+    simp only [h.unresolved]
+    split
+    · exact h
+    · obtain ⟨h1, h2⟩ := runRound_perm (s.reg.unresolved prio) h
+      cases hr : runRound s (s.reg.unresolved prio) with
+      | mk s1 res =>
+        cases hr' : runRound s' (s.reg.unresolved prio) with
+        | mk s1' res' =>
+          rw [hr, hr'] at h1 h2
+          simp only [] at h1 h2
+          subst h2
+          cases res' with
+          | ok u =>
+            cases u
+            simp only [h1.unresolved, h.perm.length_eq, h1.perm.length_eq]
+            split
+            · rfl
+            · exact ih h1
+          | defer => rfl
+          | err m => rfl
+          | panic m => rfl
+
+theorem resolveXVals_canon (reg : Registry) (m m' : Mod) (h : canonM m' = canonM m) :
+    RelRes (fun a b => canonM b = canonM a) (resolveXVals reg m) (resolveXVals reg m') := by
+  have hr := canonM_rest h
+  unfold resolveXVals
+  rw [canonM_scope h]
+  rw [show m'.xvals = m.xvals by rw [hr]]
+  cases Res.mapM' (fun (ev : XValue) =>
+      match reg.resolveTy m.scope ev.gty with
+      | .ok t => Res.ok { ev with ty := some t }
+      | .defer => .err "failed to resolve type for extern value"
+      | e => e.cast) m.xvals with
+  | ok xvals =>
+    refine Or.inr ⟨_, _, rfl, rfl, ?_⟩
+    simp only [canonM, Mod.mk.injEq] at h ⊢
+    obtain ⟨h1, h2, h3, h4, h5, h6, h7⟩ := h
+    exact ⟨h1, h2, h3, trivial, h5, h6, h7⟩
+  | defer => exact Or.inl ⟨rfl, fun a h => by cases h⟩
+  | err m => exact Or.inl ⟨rfl, fun a h => by cases h⟩
+  | panic m => exact Or.inl ⟨rfl, fun a h => by cases h⟩
+
+theorem xvalPass_canon {r r' : Registry} (hs : RegSim r r') (e e' : Path × Mod) (h : canonE e' = canonE e) :
+    RelRes (fun a b => canonE b = canonE a) (xvalPass r e) (xvalPass r' e') := by
+  obtain ⟨k, m⟩ := e
+  obtain ⟨k', m'⟩ := e'
+  simp only [canonE, Prod.mk.injEq] at h
+  obtain ⟨hk, hm⟩ := h
+  subst hk
+  unfold xvalPass
+  simp only [resolveXVals_sim hs]
+  rcases resolveXVals_canon r m m' hm with ⟨he, hn⟩ | ⟨a, b, h1, h2, hab⟩
+  · rw [← he]
+    cases hx : resolveXVals r m with
+    | ok a => exact (hn a hx).elim
+    | defer => exact Or.inl ⟨rfl, fun a h => by cases h⟩
+    | err m => exact Or.inl ⟨rfl, fun a h => by cases h⟩
+    | panic m => exact Or.inl ⟨rfl, fun a h => by cases h⟩
+  · rw [h1, h2]
+    refine Or.inr ⟨_, _, rfl, rfl, ?_⟩
+    simp only [canonE, hab]
+
+/-- two lists related element by element -/
+inductive F2 {α} (R : α → α → Prop) : List α → List α → Prop
+  | nil : F2 R [] []
+  | cons {a b : α} {l l' : List α} : R a b → F2 R l l' → F2 R (a :: l) (b :: l')
+
+theorem mapM'_rel {α} (R : α → α → Prop) (f f' : α → Res α) (Q : α → α → Prop)
+    (hf : ∀ a a', Q a a' → RelRes R (f a) (f' a')) (l l' : List α) (h : F2 Q l l') :
+    RelRes (F2 R) (Res.mapM' f l) (Res.mapM' f' l') := by
+  induction h with
+  | nil => exact Or.inr ⟨[], [], rfl, rfl, .nil⟩
+  | @cons a a' l l' hq _ ih =>
+    simp only [Res.mapM']
+    rcases hf a a' hq with ⟨he, hn⟩ | ⟨b, b', h1, h2, hr⟩
+    · rw [← he]
+      cases hx : f a with
+      | ok b => exact (hn b hx).elim
+      | defer => exact Or.inl ⟨rfl, fun a h => by cases h⟩
+      | err m => exact Or.inl ⟨rfl, fun a h => by cases h⟩
+      | panic m => exact Or.inl ⟨rfl, fun a h => by cases h⟩
+    · rw [h1, h2]
+      simp only []
+      rcases ih with ⟨he, hn⟩ | ⟨bs, bs', h3, h4, hrs⟩
+      · rw [← he]
+        cases hx : Res.mapM' f l with
+        | ok bs => exact (hn bs hx).elim
+        | defer => exact Or.inl ⟨rfl, fun a h => by cases h⟩
+        | err m => exact Or.inl ⟨rfl, fun a h => by cases h⟩
+        | panic m => exact Or.inl ⟨rfl, fun a h => by cases h⟩
+      · rw [h3, h4]
+        exact Or.inr ⟨_, _, rfl, rfl, .cons hr hrs⟩
+
+theorem f2_of_map_eq {α β} (g : α → β) (l l' : List α) (h : l'.map g = l.map g) :
+    F2 (fun a a' => g a' = g a) l l' := by
+  induction l generalizing l' with
+  | nil =>
+    cases l' with
+    | nil => exact .nil
+    | cons a' l' => simp at h
+  | cons a l ih =>
+    cases l' with
+    | nil => simp at h
+    | cons a' l' =>
+      simp only [List.map_cons, List.cons.injEq] at h
+      exact .cons h.1 (ih l' h.2)
+
+theorem map_eq_of_f2 {α β} (g : α → β) (l l' : List α) (h : F2 (fun a a' => g a' = g a) l l') :
+    l'.map g = l.map g := by
+  induction h with
+  | nil => rfl
+  | cons h1 _ ih => simp only [List.map_cons, h1, ih]
+
+theorem build_perm (prio : List Path) {s s' : State} (h : PermS s s') :
+    RelO PermS (s.build prio) (s'.build prio) := by
+  rw [build_eq, build_eq, h.nItems]
+  have hl := resolveLoop_perm prio (2 * (s.reg.types.filter fun e => !e.2.isResolved).length + 2) h
+  cases hr : resolveLoop prio (2 * (s.reg.types.filter fun e => !e.2.isResolved).length + 2) s with
+  | ok s1 =>
+    cases hr' : resolveLoop prio (2 * (s.reg.types.filter fun e => !e.2.isResolved).length + 2) s' with
+    | ok s1' =>
+      rw [hr, hr'] at hl
+      have hl : PermS s1 s1' := hl
+      unfold buildFinish
+      simp only []
+      have key := mapM'_rel (fun a b => canonE b = canonE a) (xvalPass s1.reg) (xvalPass s1'.reg)
+        (fun a b => canonE b = canonE a) (fun a a' hq => xvalPass_canon hl.regSim a a' hq)
+        s1.modules s1'.modules (f2_of_map_eq canonE _ _ hl.mods)
+      rcases key with ⟨he, hn⟩ | ⟨ms, ms', h1, h2, hms⟩
+      · rw [← he]
+        cases hx : Res.mapM' (xvalPass s1.reg) s1.modules with
+        | ok ms => exact (hn ms hx).elim
+        | defer => rfl
+        | err m => rfl
+        | panic m => rfl
+      · rw [h1, h2]
+        exact ⟨hl.ps, hl.get, hl.perm, map_eq_of_f2 canonE _ _ hms⟩
+    | nonterm l => rw [hr, hr'] at hl; exact hl.elim
+    | err m => rw [hr, hr'] at hl; exact hl.elim
+    | panic m => rw [hr, hr'] at hl; exact hl.elim
+    | fuel => rw [hr, hr'] at hl; exact hl.elim
+  | nonterm l =>
+    cases hr' : resolveLoop prio (2 * (s.reg.types.filter fun e => !e.2.isResolved).length + 2) s' with
+    | nonterm l' => rw [hr, hr'] at hl; exact hl
+    | ok _ => rw [hr, hr'] at hl; exact hl.elim
+    | err m => rw [hr, hr'] at hl; exact hl.elim
+    | panic m => rw [hr, hr'] at hl; exact hl.elim
+    | fuel => rw [hr, hr'] at hl; exact hl.elim
+  | err m =>
+    cases hr' : resolveLoop prio (2 * (s.reg.types.filter fun e => !e.2.isResolved).length + 2) s' with
+    | err m' => rw [hr, hr'] at hl; exact hl
+    | ok _ => rw [hr, hr'] at hl; exact hl.elim
+    | nonterm l => rw [hr, hr'] at hl; exact hl.elim
+    | panic m => rw [hr, hr'] at hl; exact hl.elim
+    | fuel => rw [hr, hr'] at hl; exact hl.elim
+  | panic m =>
+    cases hr' : resolveLoop prio (2 * (s.reg.types.filter fun e => !e.2.isResolved).length + 2) s' with
+    | panic m' => rw [hr, hr'] at hl; exact hl
+    | ok _ => rw [hr, hr'] at hl; exact hl.elim
+    | nonterm l => rw [hr, hr'] at hl; exact hl.elim
+    | err m => rw [hr, hr'] at hl; exact hl.elim
+    | fuel => rw [hr, hr'] at hl; exact hl.elim
+  | fuel =>
+    cases hr' : resolveLoop prio (2 * (s.reg.types.filter fun e => !e.2.isResolved).length + 2) s' with
+    | fuel => trivial
+    | ok _ => rw [hr, hr'] at hl; exact hl.elim
+    | nonterm l => rw [hr, hr'] at hl; exact hl.elim
+    | err m => rw [hr, hr'] at hl; exact hl.elim
+    | panic m => rw [hr, hr'] at hl; exact hl.elim
+
+
+theorem RelRes.trans {α} {R : α → α → Prop} (hR : ∀ a b c, R a b → R b c → R a c) {x y z : Res α}
+    (h1 : RelRes R x y) (h2 : RelRes R y z) : RelRes R x z := by
+  rcases h1 with ⟨e1, n1⟩ | ⟨a, b, ha, hb, hab⟩
+  · rcases h2 with ⟨e2, _⟩ | ⟨b, c, hb, _, _⟩
+    · exact Or.inl ⟨e1.trans e2, n1⟩
+    · rw [← e1] at hb; exact (n1 b hb).elim
+  · rcases h2 with ⟨e2, n2⟩ | ⟨b', c, hb', hc, hbc⟩
+    · exact (n2 b hb).elim
+    · rw [hb] at hb'; cases hb'
+      exact Or.inr ⟨a, c, ha, hc, hR a b c hab hbc⟩
+
+theorem RelRes.of_eq {α} {R : α → α → Prop} (hR : ∀ a, R a a) (x : Res α) : RelRes R x x := by
+  cases x with
+  | ok a => exact Or.inr ⟨a, a, rfl, rfl, hR a⟩
+  | defer => exact Or.inl ⟨rfl, fun a h => by cases h⟩
+  | err m => exact Or.inl ⟨rfl, fun a h => by cases h⟩
+  | panic m => exact Or.inl ⟨rfl, fun a h => by cases h⟩
+
+/-- a relational fold: the same list from related states … -/
+theorem foldlM_pivot_rel {α β} (R : β → β → Prop) (f : β → α → Res β) (a a' : α) (hrefl : ∀ b, R b b)
+    (h1 : ∀ b b', R b b' → RelRes R (f b a) (f b' a'))
+    (h4 : ∀ b b' x, R b b' → RelRes R (f b x) (f b' x)) (pre post : List α) (b : β) :
+    RelRes R (Res.foldlM f b (pre ++ a :: post)) (Res.foldlM f b (pre ++ a' :: post)) := by
+  rw [foldlM_append, foldlM_append]
+  cases Res.foldlM f b pre with
+  | ok t =>
+    simp only [Res.bind, Res.foldlM]
+    rcases h1 t t (hrefl t) with ⟨he, hn⟩ | ⟨c, c', hc, hc', hr⟩
+    · rw [← he]
+      cases hx : f t a with
+      | ok c => exact (hn c hx).elim
+      | defer => exact Or.inl ⟨rfl, fun a h => by cases h⟩
+      | err m => exact Or.inl ⟨rfl, fun a h => by cases h⟩
+      | panic m => exact Or.inl ⟨rfl, fun a h => by cases h⟩
+    · rw [hc, hc']
+      exact foldlM_RelRes R f h4 post c c' hr
+  | defer => exact Or.inl ⟨rfl, fun a h => by cases h⟩
+  | err m => exact Or.inl ⟨rfl, fun a h => by cases h⟩
+  | panic m => exact Or.inl ⟨rfl, fun a h => by cases h⟩
+
+theorem defStep_perm (path : Path) {s s' : State} (h : PermS s s') (d : G.Item) :
+    RelRes PermS (C14.defStep path s d) (C14.defStep path s' d) := by
+  unfold C14.defStep
+  rw [h.regSim.contains]
+  split
+  · exact Or.inl ⟨rfl, fun a h => by cases h⟩
+  · exact addItem_perm h _
+
+theorem xtypeStep_perm (path : Path) {s s' : State} (h : PermS s s') (xt : String × List G.Attr) :
+    RelRes PermS (C14.xtypeStep path s xt) (C14.xtypeStep path s' xt) := by
+  unfold C14.xtypeStep
+  rw [h.regSim.contains]
+  cases Res.foldlM xtypeAttrStep {} xt.2 with
+  | ok xa =>
+    simp only []
+    cases xa.size with
+    | none => exact Or.inl ⟨rfl, fun a h => by cases h⟩
+    | some size =>
+      simp only []
+      cases xa.align with
+      | none => exact Or.inl ⟨rfl, fun a h => by cases h⟩
+      | some align =>
+        simp only []
+        split
+        · exact Or.inl ⟨rfl, fun a h => by cases h⟩
+        · split
+          · exact Or.inl ⟨rfl, fun a h => by cases h⟩
+          · exact addItem_perm h _
+  | defer => exact Or.inl ⟨rfl, fun a h => by cases h⟩
+  | err m => exact Or.inl ⟨rfl, fun a h => by cases h⟩
+  | panic m => exact Or.inl ⟨rfl, fun a h => by cases h⟩
+
+/-- replace the module stored under `parent` -/
+def updMod (parent : Path) (n : Mod) (e : Path × Mod) : Path × Mod := if e.1 == parent then (e.1, n) else e
+
+/-- `HashSet::insert` on the definition paths of a module -/
+def insPath (k : Path) (dp : List Path) : List Path := if dp.contains k then dp else k :: dp
+
+theorem parent_concat (path : Path) (nm : String) : Path.parent? (path ++ [nm]) = some path := by
+  simp [Path.parent?]
+
+theorem addItem_closed (s : State) (i : ItemDef) (path : Path) (nm : String) (m : Mod)
+    (hi : i.path = path ++ [nm]) (hm : s.getModule path = some m) :
+    s.addItem i = .ok { modules := s.modules.map (updMod path { m with defPaths := insPath i.path m.defPaths }),
+                        reg := s.reg.add i } := by
+  unfold State.addItem
+  rw [hi, parent_concat]
+  simp only [hm]
+  rfl
+
+theorem getModule_updMod (ms : List (Path × Mod)) (reg : Registry) (path : Path) (m n : Mod)
+    (hm : List.lookup path ms = some m) :
+    ({ modules := ms.map (updMod path n), reg := reg } : State).getModule path = some n := by
+  unfold State.getModule updMod
+  rw [C14.lookup_map_replace]
+  simp [hm]
+
+theorem updMod_updMod (path : Path) (n1 n2 : Mod) (ms : List (Path × Mod)) :
+    (ms.map (updMod path n1)).map (updMod path n2) = ms.map (updMod path n2) := by
+  rw [List.map_map]
+  apply List.map_congr_left
+  intro e _
+  simp only [Function.comp, updMod]
+  by_cases hk : (e.1 == path) = true <;> simp [hk]
+
+theorem canonE_updMod (path : Path) (n : Mod) (ms : List (Path × Mod)) :
+    (ms.map (updMod path n)).map canonE = (ms.map canonE).map (updMod path (canonM n)) := by
+  rw [List.map_map, List.map_map]
+  apply List.map_congr_left
+  intro e _
+  simp only [Function.comp, updMod, canonE]
+  by_cases hk : (e.1 == path) = true <;> simp [hk]
+
+theorem insPath_perm {dp dp' : List Path} (h : dp'.Perm dp) (k : Path) : (insPath k dp').Perm (insPath k dp) := by
+  unfold insPath
+  have hc : dp'.contains k = dp.contains k := by
+    rw [Bool.eq_iff_iff]
+    simp only [List.contains_eq_mem, decide_eq_true_eq]
+    exact h.mem_iff
+  rw [hc]
+  split
+  · exact h
+  · exact List.Perm.cons _ h
+
+theorem insPath_comm (dp : List Path) (a b : Path) : (insPath a (insPath b dp)).Perm (insPath b (insPath a dp)) := by
+  unfold insPath
+  by_cases ha : dp.contains a = true <;> by_cases hb : dp.contains b = true <;>
+    by_cases hab : a = b <;> simp_all
+  rw [if_neg (fun h => hab h.symm)]
+  exact List.Perm.swap _ _ _
+
+/-- the registry entry `add_module` makes for a definition -/
+def defItem (path : Path) (d : G.Item) : ItemDef :=
+  { vis := d.vis, path := path ++ [d.name], state := .unres d, cat := .defined }
+
+/-- the state after a definition was registered in the module `m` stored under `path` -/
+def defAdded (path : Path) (m : Mod) (s : State) (d : G.Item) : State :=
+  { modules := s.modules.map (updMod path { m with defPaths := insPath (path ++ [d.name]) m.defPaths }),
+    reg := s.reg.add (defItem path d) }
+
+theorem defStep_closed (path : Path) (s : State) (d : G.Item) (m : Mod) (hm : s.getModule path = some m) :
+    C14.defStep path s d = if s.reg.contains (path ++ [d.name]) then .err "item is defined more than once"
+      else .ok (defAdded path m s d) := by
+  unfold C14.defStep
+  split
+  · rfl
+  · exact addItem_closed s (defItem path d) path d.name m rfl hm
+
+theorem defAdded_getModule (path : Path) (m : Mod) (s : State) (d : G.Item) (hm : s.getModule path = some m) :
+    (defAdded path m s d).getModule path = some { m with defPaths := insPath (path ++ [d.name]) m.defPaths } :=
+  getModule_updMod s.modules _ path m _ hm
+
+theorem defAdded_contains (path : Path) (m : Mod) (s : State) (d : G.Item) (q : Path) :
+    (defAdded path m s d).reg.contains q = (s.reg.contains q || q == path ++ [d.name]) := by
+  rw [Bool.eq_iff_iff]
+  simp only [Bool.or_eq_true, beq_iff_eq]
+  exact C14.contains_add s.reg (defItem path d) q
+
+/-- registering two definitions in either order -/
+theorem defAdded_comm (path : Path) {s s' : State} (h : PermS s s') (m m' : Mod) (hmm : canonM m' = canonM m)
+    (x y : G.Item) (hne : path ++ [x.name] ≠ path ++ [y.name]) :
+    PermS
+      (defAdded path { m with defPaths := insPath (path ++ [y.name]) m.defPaths } (defAdded path m s y) x)
+      (defAdded path { m' with defPaths := insPath (path ++ [x.name]) m'.defPaths } (defAdded path m' s' x) y) := by
+  have hperm := canonM_perm hmm
+  have hrest := canonM_rest hmm
+  refine ⟨h.ps, ?_, ?_, ?_⟩
+  · intro q
+    simp only [defAdded, C14.get_add, defItem, h.get]
+    by_cases h1 : q = path ++ [x.name]
+    · subst h1; simp [hne]
+    · simp [h1]
+  · simp only [defAdded, Registry.add, defItem, List.filter_cons]
+    have e1 : ((path ++ [y.name]) != (path ++ [x.name])) = true := bne_iff_ne.mpr (fun e => hne e.symm)
+    have e2 : ((path ++ [x.name]) != (path ++ [y.name])) = true := bne_iff_ne.mpr hne
+    simp only [e1, e2, if_true]
+    refine (List.Perm.swap _ _ _).trans (List.Perm.cons _ (List.Perm.cons _ ?_))
+    rw [List.filter_filter, List.filter_filter]
+    have : (fun (a : Path × ItemDef) => (a.1 != path ++ [y.name] && a.1 != path ++ [x.name]))
+        = (fun a => (a.1 != path ++ [x.name] && a.1 != path ++ [y.name])) := by
+      funext a; exact Bool.and_comm _ _
+    rw [this]
+    exact h.perm.filter _
+  · simp only [defAdded, updMod_updMod, canonE_updMod, h.mods]
+    congr 2
+    rw [hrest]
+    simp only [canonM]
+    congr 1
+    exact sortPaths_perm _ _ ((insPath_perm (insPath_perm hperm _) _).trans (insPath_comm _ _ _))
+
+theorem PermS.getModule_some {s s' : State} (h : PermS s s') (q : Path) (m : Mod) (hm : s.getModule q = some m) :
+    ∃ m', s'.getModule q = some m' ∧ canonM m' = canonM m := by
+  have := h.getModule q
+  rw [hm] at this
+  cases h2 : s'.getModule q with
+  | none => rw [h2] at this; cases this
+  | some m' =>
+    rw [h2] at this
+    simp only [Option.map_some, Option.some.injEq] at this
+    exact ⟨m', rfl, this⟩
+
+theorem defStep_ok_getModule (path : Path) (s t : State) (d : G.Item) (hm : (s.getModule path).isSome = true)
+    (h : C14.defStep path s d = .ok t) : (t.getModule path).isSome = true := by
+  obtain ⟨m, hm⟩ := Option.isSome_iff_exists.mp hm
+  rw [defStep_closed path s d m hm] at h
+  split at h
+  · cases h
+  · cases h
+    rw [defAdded_getModule path m s d hm]
+    rfl
+
+/-- the first two steps of the definitions loop, in closed form -/
+theorem defFold_two (path : Path) (s : State) (m : Mod) (hm : s.getModule path = some m) (x y : G.Item)
+    (l : List G.Item) :
+    Res.foldlM (C14.defStep path) s (x :: y :: l) =
+      if s.reg.contains (path ++ [x.name]) = true ∨ s.reg.contains (path ++ [y.name]) = true
+          ∨ path ++ [y.name] = path ++ [x.name] then
+        .err "item is defined more than once"
+      else
+        Res.foldlM (C14.defStep path)
+          (defAdded path { m with defPaths := insPath (path ++ [x.name]) m.defPaths } (defAdded path m s x) y) l := by
+  simp only [Res.foldlM]
+  rw [defStep_closed path s x m hm]
+  by_cases cx : s.reg.contains (path ++ [x.name]) = true
+  · rw [if_pos cx, if_pos (Or.inl cx)]
+  · rw [if_neg cx]
+    simp only []
+    rw [defStep_closed path _ y _ (defAdded_getModule path m s x hm), defAdded_contains]
+    by_cases cy : s.reg.contains (path ++ [y.name]) = true
+    · simp only [cy, Bool.true_or, if_true]
+      rw [if_pos (Or.inr (Or.inl trivial))]
+    · by_cases hxy : path ++ [y.name] = path ++ [x.name]
+      · have : (path ++ [y.name] == path ++ [x.name]) = true := by rw [hxy]; exact beq_self_eq_true _
+        simp only [this, Bool.or_true, if_true]
+        rw [if_pos (Or.inr (Or.inr hxy))]
+      · have : (path ++ [y.name] == path ++ [x.name]) = false := by simpa using hxy
+        simp only [cy, this, Bool.or_false, Bool.false_eq_true, if_false]
+        rw [if_neg]
+        intro hh
+        rcases hh with hh | hh | hh
+        · exact cx hh
+        · cases hh
+        · exact hxy hh
+
+/-- the definitions loop over a permuted list, from related states -/
+theorem defFold_perm (path : Path) {l l' : List G.Item} (hp : l'.Perm l) :
+    ∀ {s s' : State}, PermS s s' → (s.getModule path).isSome = true →
+      RelRes PermS (Res.foldlM (C14.defStep path) s l) (Res.foldlM (C14.defStep path) s' l') := by
+  induction hp with
+  | nil => intro s s' h _; exact Or.inr ⟨s, s', rfl, rfl, h⟩
+  | @cons x l1 l2 _ ih =>
+    intro s s' h hm
+    simp only [Res.foldlM]
+    rcases defStep_perm path h x with ⟨he, hn⟩ | ⟨t, t', h1, h2, ht⟩
+    · rw [← he]
+      cases hx : C14.defStep path s x with
+      | ok c => exact (hn c hx).elim
+      | defer => exact Or.inl ⟨rfl, fun a h => by cases h⟩
+      | err m => exact Or.inl ⟨rfl, fun a h => by cases h⟩
+      | panic m => exact Or.inl ⟨rfl, fun a h => by cases h⟩
+    · rw [h1, h2]
+      exact ih ht (defStep_ok_getModule path s t x hm h1)
+  | swap x y l0 =>
+    intro s s' h hm
+    obtain ⟨m, hm⟩ := Option.isSome_iff_exists.mp hm
+    obtain ⟨m', hm', hmm⟩ := h.getModule_some path m hm
+    rw [defFold_two path s m hm x y l0, defFold_two path s' m' hm' y x l0]
+    simp only [h.regSim.contains]
+    by_cases hc : s.reg.contains (path ++ [x.name]) = true ∨ s.reg.contains (path ++ [y.name]) = true
+        ∨ path ++ [y.name] = path ++ [x.name]
+    · rw [if_pos hc, if_pos]
+      · exact Or.inl ⟨rfl, fun a h => by cases h⟩
+      · rcases hc with hc | hc | hc
+        · exact Or.inr (Or.inl hc)
+        · exact Or.inl hc
+        · exact Or.inr (Or.inr hc.symm)
+    · rw [if_neg hc, if_neg]
+      · have hne : path ++ [y.name] ≠ path ++ [x.name] := fun e => hc (Or.inr (Or.inr e))
+        exact foldlM_RelRes PermS (C14.defStep path) (fun b b' a hb => defStep_perm path hb a) l0 _ _
+          (defAdded_comm path h m m' hmm y x hne)
+      · intro hh
+        rcases hh with hh | hh | hh
+        · exact hc (Or.inr (Or.inl hh))
+        · exact hc (Or.inl hh)
+        · exact hc (Or.inr (Or.inr hh.symm))
+  | @trans l1 l2 l3 _ _ ih1 ih2 =>
+    intro s s' h hm
+    exact RelRes.trans (R := PermS) (fun a b c h1 h2 => PermS.trans h1 h2) (ih2 (PermS.refl s) hm) (ih1 h hm)
+
+theorem putModule_perm {s s' : State} (h : PermS s s') (path : Path) (mod : Mod) :
+    PermS (s.putModule path mod) (s'.putModule path mod) := by
+  refine ⟨h.ps, h.get, h.perm, ?_⟩
+  simp only [State.putModule, List.map_cons]
+  congr 1
+  have : ((fun (e : Path × Mod) => e.1 != path) ∘ canonE) = (fun (e : Path × Mod) => e.1 != path) := rfl
+  have e : ∀ (ms : List (Path × Mod)), (ms.filter fun e => e.1 != path).map canonE
+      = (ms.map canonE).filter fun e => e.1 != path := by
+    intro ms
+    rw [List.filter_map, this]
+  rw [e, e, h.mods]
+
+theorem putModule_getModule (s : State) (path : Path) (mod : Mod) :
+    ((s.putModule path mod).getModule path).isSome = true := by
+  simp [State.putModule, State.getModule]
+
+theorem addCore_perm (path : Path) {s s' : State} (h : PermS s s') (hm : (s.getModule path).isSome = true)
+    (defs defs' : List G.Item) (hp : defs'.Perm defs) (xtypes : List (String × List G.Attr)) :
+    RelRes PermS (addCore path s defs xtypes) (addCore path s' defs' xtypes) := by
+  unfold addCore
+  rcases defFold_perm path hp h hm with ⟨he, hn⟩ | ⟨t, t', h1, h2, ht⟩
+  · rw [← he]
+    cases hx : Res.foldlM (C14.defStep path) s defs with
+    | ok c => exact (hn c hx).elim
+    | defer => exact Or.inl ⟨rfl, fun a h => by cases h⟩
+    | err m => exact Or.inl ⟨rfl, fun a h => by cases h⟩
+    | panic m => exact Or.inl ⟨rfl, fun a h => by cases h⟩
+  · rw [h1, h2]
+    exact foldlM_RelRes PermS (C14.xtypeStep path) (fun b b' a hb => xtypeStep_perm path hb a) xtypes t t' ht
+
+theorem implCheck_perm (m : G.Module) (defs' : List G.Item) (hp : defs'.Perm m.defs) :
+    implCheck { m with defs := defs' } = implCheck m := by
+  unfold implCheck
+  simp only []
+  congr 1
+  funext b
+  congr 1
+  rw [Bool.eq_iff_iff]
+  simp only [List.any_eq_true]
+  constructor
+  · rintro ⟨d, hd, h⟩; exact ⟨d, hp.mem_iff.mp hd, h⟩
+  · rintro ⟨d, hd, h⟩; exact ⟨d, hp.mem_iff.mpr hd, h⟩
+
+/-- `add_module` of a module and of the same module with its definitions permuted, from related states -/
+theorem addModule_perm {s s' : State} (h : PermS s s') (m : G.Module) (defs' : List G.Item)
+    (hp : defs'.Perm m.defs) (path : Path) :
+    RelRes PermS (s.addModule m path) (s'.addModule { m with defs := defs' } path) := by
+  rw [addModule_eq, addModule_eq]
+  simp only [implCheck_perm m defs' hp]
+  cases Res.mapM' C14.xvalStep m.xvals with
+  | ok xvals =>
+    simp only [Res.bind]
+    cases G.docOf m.attrs with
+    | none => exact Or.inl ⟨rfl, fun a h => by cases h⟩
+    | some doc =>
+      simp only []
+      by_cases hc : implCheck m = true
+      · rw [if_pos hc, if_pos hc]; exact Or.inl ⟨rfl, fun a h => by cases h⟩
+      · rw [if_neg hc, if_neg hc]
+        exact addCore_perm path (putModule_perm h path _) (putModule_getModule s path _) m.defs defs' hp m.xtypes
+  | defer => exact Or.inl ⟨rfl, fun a h => by cases h⟩
+  | err m => exact Or.inl ⟨rfl, fun a h => by cases h⟩
+  | panic m => exact Or.inl ⟨rfl, fun a h => by cases h⟩
+
+theorem caseStep_perm {s s' : State} (h : PermS s s') (me : ModEnt) :
+    RelRes PermS (caseStep s me) (caseStep s' me) := by
+  cases me with
+  | ast path file m => exact addModule_perm h m m.defs (List.Perm.refl _) path
+  | text f t => exact Or.inl ⟨rfl, fun a h => by cases h⟩
+
+/-- case `c'` is case `c` with the definitions of the `j`-th module (an AST module) permuted -/
+def ReorderedDefs (c c' : Case) : Prop :=
+  ∃ (j : Nat) (path : Path) (file : String) (m : G.Module) (defs' : List G.Item),
+    c.modules[j]? = some (.ast path file m) ∧ defs'.Perm m.defs ∧
+    c' = { c with modules := c.modules.set j (.ast path file { m with defs := defs' }) }
+
+theorem initialState_reordered (c c' : Case) (h : ReorderedDefs c c') :
+    c'.ps = c.ps ∧ c'.prio = c.prio ∧ RelRes PermS c.initialState c'.initialState := by
+  obtain ⟨j, path, file, m, defs', hj, hp, rfl⟩ := h
+  refine ⟨rfl, rfl, ?_⟩
+  obtain ⟨e1, e2⟩ := list_split c.modules j (.ast path file m) (.ast path file { m with defs := defs' }) hj
+  rw [initialState_eq, initialState_eq]
+  simp only []
+  rw [e2]
+  conv => lhs; rw [e1]
+  exact foldlM_pivot_rel PermS caseStep (.ast path file m) (.ast path file { m with defs := defs' }) PermS.refl
+    (fun b b' hb => addModule_perm hb m defs' hp path)
+    (fun b b' x hb => caseStep_perm hb x) _ _ (State.new c.ps)
+
+/-- the runs of the two cases: the same failure, or two accepted states that differ in order only -/
+theorem run_reordered (c c' : Case) (h : ReorderedDefs c c') : RelO PermS c.run c'.run := by
+  obtain ⟨_, hprio, hinit⟩ := initialState_reordered c c' h
+  unfold Case.run
+  rw [hprio]
+  rcases hinit with ⟨he, hn⟩ | ⟨s0, s0', h1, h2, hs⟩
+  · rw [← he]
+    cases hx : c.initialState with
+    | ok a => exact (hn a hx).elim
+    | defer => rfl
+    | err m => rfl
+    | panic m => rfl
+  · rw [h1, h2]
+    exact build_perm c.prio hs
+
 end PyxisVerif.C20
